@@ -1,4 +1,190 @@
 import PV.Model.B64filter
 import PV.Lemmas.Base64
+/-
+Helper lemmas for C08 (b64filter: feeder/reader bookkeeping around the child).
+-/
+set_option linter.unusedVariables false
 namespace PV.Lemmas.B64filter
+open PV.B64filter PV.Base64 PV.Spec.Records
+
+/-- cut a list into consecutive segments of the given lengths (same as `Props.C08.segments`). -/
+def segs {α : Type} : List Nat → List α → List (List α)
+  | [], _ => []
+  | n :: ns, xs => xs.take n :: segs ns (xs.drop n)
+
+/-! ## CR stripping is off in the reader -/
+
+theorem stripCr_eq (r : List UInt8) : stripCr r = r := by
+  simp [stripCr, PV.Gen.b64filterCollectStripCr]
+
+theorem map_stripCr (ls : List (List UInt8)) : ls.map stripCr = ls := by
+  rw [List.map_congr_left (fun r _ => stripCr_eq r), List.map_id']
+
+/-! ## records of a newline-terminated text -/
+
+theorem splitGo_nl (bs : List UInt8) : ∀ cur : List UInt8,
+    splitGo 10 false (bs ++ [10]) cur ≠ [] ∧
+    (splitGo 10 false (bs ++ [10]) cur).flatMap (· ++ [10]) = cur.reverse ++ bs ++ [10] := by
+  induction bs with
+  | nil =>
+    intro cur
+    simp [splitGo, stripOneCr]
+  | cons b r ih =>
+    intro cur
+    by_cases hb : b = 10
+    · subst hb
+      have := (ih []).2
+      simp only [List.reverse_nil, List.nil_append] at this
+      simp [splitGo, stripOneCr, this]
+    · have hb' : (b == 10) = false := by simpa using hb
+      simp only [List.cons_append, splitGo, hb', Bool.false_eq_true, if_false]
+      refine ⟨(ih (b :: cur)).1, ?_⟩
+      rw [(ih (b :: cur)).2]
+      simp
+
+theorem splitRecords_nl_ne (bs : List UInt8) : splitRecords 10 false (bs ++ [10]) ≠ [] :=
+  (splitGo_nl bs []).1
+
+theorem splitRecords_nl_flat (bs : List UInt8) :
+    (splitRecords 10 false (bs ++ [10])).flatMap (· ++ [10]) = bs ++ [10] := by
+  have := (splitGo_nl bs []).2
+  simpa [splitRecords] using this
+
+/-! ## reassemble -/
+
+theorem join_nl (rest : List (List UInt8)) : ∀ a : List UInt8,
+    a ++ rest.flatMap (fun l => 10 :: l) ++ [10] = (a :: rest).flatMap (· ++ [10]) := by
+  induction rest with
+  | nil => intro a; simp
+  | cons b rest ih =>
+    intro a
+    have := ih b
+    simp only [List.flatMap_cons, List.append_assoc] at this ⊢
+    simp only [List.cons_append, List.nil_append]
+    rw [this]
+    simp
+
+theorem reassemble_true (ls : List (List UInt8)) (h : ls ≠ []) :
+    reassemble ls true = ls.flatMap (· ++ [10]) := by
+  cases ls with
+  | nil => exact absurd rfl h
+  | cons a rest =>
+    simp only [reassemble, if_true]
+    exact join_nl rest a
+
+theorem reassemble_false (ls : List (List UInt8)) (h : ls ≠ []) :
+    reassemble ls false ++ [10] = ls.flatMap (· ++ [10]) := by
+  cases ls with
+  | nil => exact absurd rfl h
+  | cons a rest =>
+    simp only [reassemble, Bool.false_eq_true, if_false, List.append_nil]
+    exact join_nl rest a
+
+/-! ## describe -/
+
+theorem describe_lines_ne (doc : List UInt8) : (describe doc).lines ≠ [] := by
+  unfold describe
+  simp only
+  by_cases h : doc.getLast? = some 10
+  · obtain ⟨ys, rfl⟩ := List.getLast?_eq_some_iff.mp h
+    have ht : ((ys ++ [10]).getLast? == some (10 : UInt8)) = true := by simp
+    rw [ht]
+    simp only [if_true]
+    exact splitRecords_nl_ne ys
+  · have ht : (doc.getLast? == some (10 : UInt8)) = false := by simpa using h
+    rw [ht]
+    simp only [Bool.false_eq_true, if_false]
+    exact splitRecords_nl_ne doc
+
+theorem describe_reassemble_raw (doc : List UInt8) :
+    reassemble (describe doc).lines (describe doc).trailing = doc := by
+  unfold describe
+  simp only
+  by_cases h : doc.getLast? = some 10
+  · obtain ⟨ys, rfl⟩ := List.getLast?_eq_some_iff.mp h
+    have ht : ((ys ++ [10]).getLast? == some (10 : UInt8)) = true := by simp
+    rw [ht]
+    simp only [if_true]
+    rw [reassemble_true _ (splitRecords_nl_ne ys), splitRecords_nl_flat]
+  · have ht : (doc.getLast? == some (10 : UInt8)) = false := by simpa using h
+    rw [ht]
+    simp only [Bool.false_eq_true, if_false]
+    have := reassemble_false _ (splitRecords_nl_ne doc)
+    rw [splitRecords_nl_flat] at this
+    exact List.append_cancel_right this
+
+theorem describe_reassemble' (doc : List UInt8) :
+    reassemble ((describe doc).lines.map stripCr) (describe doc).trailing = doc := by
+  rw [map_stripCr, describe_reassemble_raw]
+
+/-! ## decodeAllDocs -/
+
+theorem decodeAllDocs_length (input : List (List UInt8)) : ∀ docs,
+    decodeAllDocs input = some docs → docs.length = input.length := by
+  induction input with
+  | nil => intro docs h; simp [decodeAllDocs] at h; subst h; rfl
+  | cons l ls ih =>
+    intro docs h
+    rw [decodeAllDocs] at h
+    split at h
+    · rename_i d rest _ hr
+      cases h
+      simp [ih rest hr]
+    · cases h
+
+theorem decodeAllDocs_encoded (docs : List (List UInt8)) :
+    decodeAllDocs (docs.map encode) = some docs := by
+  induction docs with
+  | nil => rfl
+  | cons d ds ih =>
+    simp only [List.map_cons, decodeAllDocs, PV.Lemmas.Base64.decode_encode', ih]
+
+/-! ## collect -/
+
+theorem collect_length (descs : List Desc) : ∀ (xs : List (List UInt8)) out,
+    collect descs xs = some out → out.length = descs.length := by
+  induction descs with
+  | nil =>
+    intro xs out h
+    cases xs with
+    | nil => simp [collect] at h; subst h; rfl
+    | cons x xs => simp [collect] at h
+  | cons d ds ih =>
+    intro xs out h
+    rw [collect] at h
+    split at h
+    · cases h
+    · split at h
+      · cases h
+      · rename_i rest hr
+        cases h
+        simp [ih _ _ hr]
+
+theorem collect_segs (descs : List Desc) : ∀ (xs : List (List UInt8)),
+    xs.length = (descs.map (·.lines.length)).sum →
+    collect descs xs = some
+      ((descs.zip (segs (descs.map (·.lines.length)) xs)).map
+        (fun (d, seg) => encode (reassemble (seg.map stripCr) d.trailing))) := by
+  induction descs with
+  | nil =>
+    intro xs h
+    have : xs = [] := List.eq_nil_of_length_eq_zero (by simpa using h)
+    subst this
+    simp [collect, segs]
+  | cons d ds ih =>
+    intro xs h
+    simp only [List.map_cons, List.sum_cons] at h
+    rw [collect]
+    rw [if_neg (by omega), ih (xs.drop d.lines.length) (by rw [List.length_drop]; omega)]
+    simp [segs]
+
+theorem collect_exact (docs : List (List UInt8)) :
+    collect (docs.map describe) ((docs.map describe).flatMap (·.lines)) = some (docs.map encode) := by
+  induction docs with
+  | nil => simp [collect]
+  | cons d ds ih =>
+    simp only [List.map_cons, List.flatMap_cons]
+    rw [collect]
+    rw [if_neg (by simp), List.drop_left' rfl, ih, List.take_left' rfl, describe_reassemble']
+
 end PV.Lemmas.B64filter
